@@ -79,12 +79,15 @@ def run(ck):
 
     # ---- constructor guard
     n_raise = 0
-    for pa in explore(ck, finit):
+    for pa in explore(ck, finit, follow=lambda callee: callee.name == "__post_init__"):
         if pa.outcome == "raise":
             n_raise += 1
             conds = [(c, tv) for c, tv, _ in pa.state.assumptions]
             want = T.mk_le(V(m_param), C(0))
             got = [c if tv else T.mk_not(c) for c, tv in conds]
+            # a check written against the attribute the parameter was just stored in (dataclass __post_init__) is the same check
+            back = {self_attr(a): V(p0) for p0, a in fattr.items()}
+            got = [T.substitute(g, back) for g in got]
             ck.judge(got == [want], "C13.1", "AlignmentSegmentsFactory.__init__:minScore-positive", where(finit, pa.node),
                      "constructor rejects minScore <= 0 (minScore must be positive)",
                      found="; ".join(T.show(g) for g in got), required=T.show(want))
